@@ -241,3 +241,6 @@ META = dict(
     assumptions=["highestbar/lowestbar look at the `length` bars ending at the current one (the window Aroon relies on); highest/lowest/value_range at the current candle and the `length` before it", "pattern thresholds: TA-Lib candle settings (BodyLong/BodyShort: average body of 10; Doji/ShadowVeryShort: 10% of average range of 10; Near: 20% of average range of 5); ShadowLong: longer than the body"],
     explanation="library predicates vs reference predicates / documented clauses decided by z3 for all values on every path",
 )
+
+# families added after the seeding rounds (kept next to the original bound so that MANIFEST / evidence stay current)
+META["bounds"] = dict(META["bounds"], quick=META["bounds"]["quick"] + "; added after the seeding rounds: " + 'pattern obligations under the eps rounding model; witness directly after exactly 10 candles; geometry after Candle.merge')
